@@ -326,7 +326,7 @@ func (c *Client) Send(packet stanza.Packet) error {
 			// Acknowledgement requests and answers are not stanzas: never held, never counted
 		default:
 			toStore := stanza.UnAckedStz{Stz: string(data)}
-			c.Session.SMState.UnAckQueue.Push(&toStore)
+			c.pushUnAcked(&toStore)
 		}
 	}
 	if verifEnabled {
@@ -372,12 +372,24 @@ func (c *Client) SendRaw(packet string) error {
 	// See https://xmpp.org/extensions/xep-0198.html#scenarios
 	if c.config.StreamManagementEnable {
 		toStore := stanza.UnAckedStz{Stz: packet}
-		c.Session.SMState.UnAckQueue.Push(&toStore)
+		c.pushUnAcked(&toStore)
 	}
 	if verifEnabled {
 		vpoint("sendraw.prewrite")
 	}
 	return c.sendWithWriter(c.transport, []byte(packet))
+}
+
+// pushUnAcked stores a sent stanza in the stream management queue. Send and SendRaw can be called
+// from several goroutines (route handlers run concurrently), and the queue itself is not thread safe.
+func (c *Client) pushUnAcked(stz *stanza.UnAckedStz) {
+	uaq := c.Session.SMState.UnAckQueue
+	if uaq == nil {
+		return
+	}
+	uaq.RWMutex.Lock()
+	uaq.Push(stz)
+	uaq.RWMutex.Unlock()
 }
 
 func (c *Client) sendWithWriter(writer io.Writer, packet []byte) error {
